@@ -42,20 +42,22 @@ POP = 'pexpect.popen_spawn.PopenSpawn.'
 
 RP_CONTRACTS = ['pexpect.utils.select_ignore_interrupts', 'pexpect.utils.poll_ignore_interrupts',
                 (SB + 'read_nonblocking', FDC), 'pexpect.fdpexpect.fdspawn.read_nonblocking',
-                'pexpect.pty_spawn.spawn.read_nonblocking']
+                'pexpect.pty_spawn.spawn.read_nonblocking', 'pexpect.popen_spawn.PopenSpawn.read_nonblocking',
+                'pexpect.socket_pexpect.SocketSpawn.read_nonblocking']
+READS = RP_CONTRACTS[2:]
 
 PROPS = {
     'C06': {
         'contracts': RP_CONTRACTS,
         'assumptions': [
             'environment (rely) model of the kernel side of a pty / pipe / descriptor (DESIGN.md 5.5): between any two system calls the peer may write and may hang up or exit; a readiness poll is true iff unread bytes exist or the peer is gone; os.read takes a non-empty prefix of the unread bytes or reports EOF iff none are left and the peer is gone; isalive() is False iff the peer has exited',
-            'PopenSpawn (reader thread + queue) and SocketSpawn read paths are not yet under contract in this check',
+            'PopenSpawn: the reader thread and queue.Queue are modelled as a FIFO that the environment fills (chunks, then a None sentinel); socket.recv under the socket timeout: data, b"" at EOF, socket.timeout after t > 0, BlockingIOError when t == 0 and nothing is ready',
             'thread scheduling inside queue.Queue and the kernel really behaving like the model are outside the contracts',
         ],
     },
     'C04': {
         'contracts': [E + 'eof', E + 'timeout', E + 'errored', E + 'existing_data', E + 'expect_loop', SS + '__init__', SR + '__init__',
-                      SB + 'expect_list', SB + 'expect_loop'],
+                      SB + 'expect_list', SB + 'expect_loop'] + READS,
         'assumptions': [
             'spawn.read_nonblocking is used through its interface contract (data | EOF | TIMEOUT | other OSError); that a transport reports EOF again without blocking after the first EOF is not under contract here (pty: blocking isalive() inside ptyprocess, see DESIGN.md section 7 #10)',
             'str(spawn) / str(searcher) used to build the exception message are assumed total here (spawn.__str__ is not yet under contract)',
@@ -65,7 +67,8 @@ PROPS = {
     'C05': {
         'contracts': [E + 'expect_loop', SB + 'expect_list', SB + 'expect_loop', 'pexpect.utils.select_ignore_interrupts',
                       'pexpect.utils.poll_ignore_interrupts', 'pexpect.fdpexpect.fdspawn.read_nonblocking',
-                      'pexpect.pty_spawn.spawn.read_nonblocking', 'pexpect.pty_spawn.spawn.waitnoecho'],
+                      'pexpect.pty_spawn.spawn.read_nonblocking', 'pexpect.pty_spawn.spawn.waitnoecho',
+                      'pexpect.popen_spawn.PopenSpawn.read_nonblocking', 'pexpect.socket_pexpect.SocketSpawn.read_nonblocking'],
         'assumptions': [
             'ghost clock (DESIGN.md 5.4): time.time() reads it, time.sleep(d) advances it by d, read_nonblocking(size, t) advances it by at most max(t, 0) and raises TIMEOUT only after t has elapsed; pure computation costs nothing',
             'the deadline bound is proved on the ghost clock relative to the read_nonblocking interface contract; that each transport meets that interface (select/poll wrappers, waitnoecho, PopenSpawn polling) is not yet under contract in this check',
@@ -81,11 +84,13 @@ PROPS = {
     },
     'C10': {
         'contracts': [PTYC + 'isalive', PTYC + 'wait', PTYC + 'kill', PTYC + 'terminate', PTYC + 'close',
-                      'pexpect.fdpexpect.fdspawn.close', 'pexpect.fdpexpect.fdspawn.isalive'],
+                      'pexpect.fdpexpect.fdspawn.close', 'pexpect.fdpexpect.fdspawn.isalive',
+                      (SB + '__exit__', 'pexpect.pty_spawn.spawn'), 'pexpect.pty_spawn.spawn.read_nonblocking',
+                      'pexpect.socket_pexpect.SocketSpawn.close'],
         'assumptions': [
             'ptyprocess 0.7.0 contracts as for C09; os.kill / os.close / os.fstat as system calls (may raise OSError)',
             'descriptor tables and zombies are kernel state: "no leak" is relative to the ptyprocess contract; __del__ / garbage collection timing is not modelled',
-            'SocketSpawn.close / isalive and terminate(force=True) always succeeding against stopped children are not under contract in this check',
+            'terminate(force=True) always succeeding against stopped children is not provable from the ptyprocess contract and is not claimed',
         ],
     },
     'C08': {
@@ -100,18 +105,18 @@ PROPS = {
     },
     'C11': {
         'contracts': [SB + '_log'] + _transport_contracts(['send', 'sendline', 'write', 'writelines']) +
-                     [PTYC + 'sendcontrol', PTYC + 'sendeof', PTYC + 'sendintr', (SB + 'read_nonblocking', FDC)],
+                     [PTYC + 'sendcontrol', PTYC + 'sendeof', PTYC + 'sendintr'] + READS,
         'assumptions': [
             'log file objects implement write(text) / flush(); two log attributes do not alias the same file object',
-            'the read paths of PopenSpawn / SocketSpawn / asyncio and interact() are not yet under contract in this check',
+            'the asyncio read path and interact() are not yet under contract in this check',
         ],
     },
     'C07': {
-        'contracts': [(SB + 'read_nonblocking', FDC)],
+        'contracts': READS,
         'assumptions': [
             'codecs incremental decoders are homomorphisms on streams that do not end inside a character: dec(a) ++ dec(b) == dec(a ++ b) (sampled dynamically in the thorough tier); given that, feeding every chunk exactly once, in order, with final=False to the one decoder of the instance delivers the decoding of the whole stream',
             'os.read returns a non-empty chunk of at most the requested size, b"" or raises OSError',
-            'PopenSpawn / SocketSpawn / asyncio read paths not yet under contract in this check',
+            'the asyncio read path (PatternWaiter.data_received) is not yet under contract in this check',
         ],
     },
     'C13': {
